@@ -62,6 +62,33 @@ pub enum Op {
     DebugFmt,
     /// the handler takes this long (wall clock moves in the middle of the request)
     Wait(u32),
+    /// several read operations in flight AT ONCE on the one `&Session` (what `tokio::join!` of two
+    /// reads, or two request-scoped components awaited concurrently, does): the store answers each
+    /// `load` after a seeded number of polls, the tape `order` decides which pending read is polled
+    /// next, the wall clock moves by `step_ms` between polls (so two loads of one request can
+    /// straddle a deadline and get different answers), and — fault arm only — one load may come
+    /// back with a stale "no such record"
+    Join(JoinOp),
+}
+
+#[derive(Serialize, Deserialize, Clone, Debug, PartialEq)]
+pub enum JRead {
+    SGet(u8),
+    IsEmpty,
+    ForceLoad,
+}
+
+#[derive(Serialize, Deserialize, Clone, Debug, PartialEq)]
+pub struct JoinOp {
+    pub reads: Vec<JRead>,
+    /// polls the j-th `load` call of the join waits for before it reaches the backend
+    pub delays: Vec<u8>,
+    /// which pending read is polled next (index modulo the number of pending reads)
+    pub order: Vec<u8>,
+    /// clock step after each poll, milliseconds (cyclic)
+    pub step_ms: Vec<u32>,
+    /// fault: the j-th `load` call answers `None` whatever the backend holds (a lagging replica)
+    pub stale_none: Option<u8>,
 }
 
 #[derive(Serialize, Deserialize, Clone, Debug, PartialEq)]
@@ -157,7 +184,45 @@ struct FaultPlan {
     crash_at: Option<u32>,
     fired_error: bool,
     fired_crash: bool,
+    fired_stale: bool,
     log: Vec<String>,
+    /// Some while a `Join` is being executed
+    join: Option<JoinPlan>,
+}
+
+#[derive(Debug, Default)]
+struct JoinPlan {
+    delays: Vec<u8>,
+    stale_none: Option<u8>,
+    next_call: u32,
+    /// one entry per `load` call that came back, in completion order
+    answers: Vec<LoadAnswer>,
+}
+
+#[derive(Debug, Clone)]
+struct LoadAnswer {
+    call: u32,
+    /// clock right before / right after the backend was asked
+    t_lo: i64,
+    t_hi: i64,
+    stale: bool,
+    /// Ok(Some(state)) / Ok(None) / Err
+    got: Result<Option<Map>, ()>,
+}
+
+/// Pending once, then ready: one scheduling point.
+struct YieldOnce(bool);
+impl Future for YieldOnce {
+    type Output = ();
+    fn poll(mut self: std::pin::Pin<&mut Self>, cx: &mut Context<'_>) -> Poll<()> {
+        if self.0 {
+            Poll::Ready(())
+        } else {
+            self.0 = true;
+            cx.waker().wake_by_ref();
+            Poll::Pending
+        }
+    }
 }
 
 /// The real backend under the fault-injecting wrapper.
@@ -267,11 +332,44 @@ impl SessionStorageBackend for FaultyStore {
         }
     }
     async fn load(&self, id: &SessionId) -> Result<Option<SessionRecord>, LoadError> {
-        match self.gate("load") {
-            Gate::Go => self.inner.load(id).await,
+        // inside a `Join`: this call reaches the backend after its scripted number of polls
+        let joined: Option<(u32, u8, bool)> = {
+            let mut p = self.plan.lock().unwrap();
+            p.join.as_mut().map(|j| {
+                let call = j.next_call;
+                j.next_call += 1;
+                (call, j.delays.get(call as usize).copied().unwrap_or(0), j.stale_none == Some(call as u8))
+            })
+        };
+        if let Some((_, delay, _)) = joined {
+            for _ in 0..delay {
+                YieldOnce(false).await;
+            }
+        }
+        let t_lo = seams::clock_ns();
+        let r = match self.gate("load") {
+            Gate::Go => match joined {
+                Some((_, _, true)) => {
+                    self.plan.lock().unwrap().fired_stale = true;
+                    Ok(None)
+                }
+                _ => self.inner.load(id).await,
+            },
             Gate::Fail => Err(LoadError::Other(injected())),
             Gate::Crash => self.stall().await,
+        };
+        if let Some((call, _, stale)) = joined {
+            let t_hi = seams::clock_ns();
+            let got = match &r {
+                Ok(Some(rec)) => Ok(Some(to_map(&rec.state))),
+                Ok(None) => Ok(None),
+                Err(_) => Err(()),
+            };
+            if let Some(j) = self.plan.lock().unwrap().join.as_mut() {
+                j.answers.push(LoadAnswer { call, t_lo, t_hi, stale, got });
+            }
         }
+        r
     }
     async fn delete(&self, id: &SessionId) -> Result<(), DeleteError> {
         match self.gate("delete") {
@@ -561,6 +659,7 @@ impl World<'_> {
                 Op::Observe => "observe",
                 Op::DebugFmt => "debug",
                 Op::Wait(_) => "wait",
+                Op::Join(_) => "join",
             })
             .collect::<Vec<_>>()
             .join(",")
@@ -719,6 +818,8 @@ fn run_request(w: &mut World<'_>, ri: usize, req: &Req, shape: &str) {
         p.crash_at = None;
         p.fired_error = false;
         p.fired_crash = false;
+        p.fired_stale = false;
+        p.join = None;
         p.log.clear();
         match req.fault {
             Some(StoreFault::Error(n)) => p.fail_at = Some(n as u32 + 1),
@@ -763,6 +864,7 @@ fn run_request(w: &mut World<'_>, ri: usize, req: &Req, shape: &str) {
     let panicked;
     {
         let store = &w.store;
+        let plan = &w.plan;
         let processor = &w.processor;
         let model = &mut w.model;
         let cfgr = w.cfg;
@@ -770,7 +872,7 @@ fn run_request(w: &mut World<'_>, ri: usize, req: &Req, shape: &str) {
         let fut = async {
             let mut session = Session::new(store, &config, incoming);
             for (oi, op) in req.ops.iter().enumerate() {
-                apply_op(&mut session, op, &mut rm, model, cfgr, arm, ri, oi, shape, &mut vio, &mut log, &mut counters).await;
+                apply_op(&mut session, op, &mut rm, model, cfgr, arm, ri, oi, shape, &mut vio, &mut log, &mut counters, plan).await;
             }
             if req.abandon {
                 drop(session);
@@ -807,10 +909,13 @@ fn run_request(w: &mut World<'_>, ri: usize, req: &Req, shape: &str) {
         w.out.count(c, 1);
     }
     w.out.violations.extend(vio);
-    let (fired_error, fired_crash, store_calls) = {
+    let (fired_error, fired_crash, fired_stale, store_calls) = {
         let p = w.plan.lock().unwrap();
-        (p.fired_error, p.fired_crash, p.log.join(","))
+        (p.fired_error, p.fired_crash, p.fired_stale, p.log.join(","))
     };
+    if fired_stale {
+        w.out.count("fault_stale_none_answer", 1);
+    }
     w.out.log.ev(format_args!("req{ri} store calls: [{store_calls}]"));
     if fired_error {
         w.out.count("fault_store_error", 1);
@@ -842,7 +947,7 @@ fn run_request(w: &mut World<'_>, ri: usize, req: &Req, shape: &str) {
             Err(_) => None,
         }
     };
-    let faulted = fired_error || fired_crash || crashed || req.abandon;
+    let faulted = fired_error || fired_crash || fired_stale || crashed || req.abandon;
     // abstract state reached at finalisation (reach measure)
     {
         let idk = match (&rm.presented, rm.renamed) {
@@ -943,6 +1048,7 @@ async fn apply_op(
     vio: &mut Vec<Violation>,
     log: &mut Vec<String>,
     counters: &mut Vec<&'static str>,
+    plan: &Arc<Mutex<FaultPlan>>,
 ) {
     let strict_values = true;
     let _ = arm;
@@ -1228,15 +1334,191 @@ async fn apply_op(
         }
         Op::Observe => {
             for (i, _) in SKEYS.iter().enumerate() {
-                Box::pin(apply_op(s, &Op::SGet(i as u8), rm, model, cfg, arm, ri, oi, shape, vio, log, counters)).await;
+                Box::pin(apply_op(s, &Op::SGet(i as u8), rm, model, cfg, arm, ri, oi, shape, vio, log, counters, plan)).await;
             }
             for (i, _) in CKEYS.iter().enumerate() {
-                Box::pin(apply_op(s, &Op::CGet(i as u8), rm, model, cfg, arm, ri, oi, shape, vio, log, counters)).await;
+                Box::pin(apply_op(s, &Op::CGet(i as u8), rm, model, cfg, arm, ri, oi, shape, vio, log, counters, plan)).await;
             }
         }
         Op::DebugFmt => {
             check_debug(s, rm, ri, shape, vio);
             counters.push("debug_checked");
+        }
+        Op::Join(j) => {
+            counters.push("join_executed");
+            let n = j.reads.len();
+            {
+                let mut p = plan.lock().unwrap();
+                p.join = Some(JoinPlan { delays: j.delays.clone(), stale_none: if arm == "fault" { j.stale_none } else { None }, next_call: 0, answers: Vec::new() });
+            }
+            #[derive(Debug)]
+            enum JOut {
+                Get(&'static str, Result<Option<Value>, ()>),
+                Empty(Result<bool, ()>),
+                Load(Result<(), ()>),
+            }
+            let mut outs: Vec<Option<JOut>> = (0..n).map(|_| None).collect();
+            {
+                let sref: &Session<'_> = &*s;
+                let mut futs: Vec<Option<std::pin::Pin<Box<dyn Future<Output = JOut> + '_>>>> = j
+                    .reads
+                    .iter()
+                    .map(|r| -> Option<std::pin::Pin<Box<dyn Future<Output = JOut> + '_>>> {
+                        Some(match r {
+                            JRead::SGet(k) => {
+                                let key = SKEYS[*k as usize % 3];
+                                Box::pin(async move { JOut::Get(key, sref.get_raw(key).await.map(|v| v.cloned()).map_err(|_| ())) })
+                            }
+                            JRead::IsEmpty => Box::pin(async move { JOut::Empty(sref.is_empty().await.map_err(|_| ())) }),
+                            JRead::ForceLoad => Box::pin(async move { JOut::Load(sref.force_load().await.map_err(|_| ())) }),
+                        })
+                    })
+                    .collect();
+                // The SQLite backend answers from a real thread: there the reads run one after the
+                // other (deterministic), the memory backend is interleaved poll by poll.
+                let sequential = cfg.sqlite;
+                let mut step = 0usize;
+                std::future::poll_fn(|cx| {
+                    let mut rounds = 0;
+                    loop {
+                        let pending: Vec<usize> = (0..n).filter(|i| outs[*i].is_none()).collect();
+                        if pending.is_empty() {
+                            return Poll::Ready(());
+                        }
+                        if rounds >= 256 {
+                            return Poll::Pending;
+                        }
+                        rounds += 1;
+                        let pick = if sequential {
+                            pending[0]
+                        } else if step < j.order.len() {
+                            pending[j.order[step] as usize % pending.len()]
+                        } else {
+                            pending[step % pending.len()]
+                        };
+                        match futs[pick].as_mut().expect("pending read").as_mut().poll(cx) {
+                            Poll::Ready(o) => {
+                                outs[pick] = Some(o);
+                                futs[pick] = None;
+                            }
+                            Poll::Pending => {
+                                if sequential {
+                                    return Poll::Pending;
+                                }
+                            }
+                        }
+                        if !j.step_ms.is_empty() {
+                            let ms = j.step_ms[step % j.step_ms.len()];
+                            if ms > 0 {
+                                seams::advance_clock_ns(ms as i64 * 1_000_000);
+                            }
+                        }
+                        step += 1;
+                    }
+                })
+                .await;
+            }
+            let jp = plan.lock().unwrap().join.take().unwrap_or_default();
+            let outs: Vec<JOut> = outs.into_iter().flatten().collect();
+            log.push(format!("join {:?} -> {:?}; loads: {:?}", j.reads, outs, jp.answers.iter().map(|a| (a.call, a.stale, a.got.as_ref().map(|m| m.as_ref().map(|m| m.len())).map_err(|_| "err"))).collect::<Vec<_>>()));
+            if jp.answers.len() >= 2 {
+                counters.push("join_two_loads_in_flight");
+                let ok: Vec<&Option<Map>> = jp.answers.iter().filter_map(|a| a.got.as_ref().ok()).collect();
+                if ok.windows(2).any(|w| w[0] != w[1]) {
+                    counters.push("join_loads_disagreed");
+                }
+            }
+            let invalidated_now = s.is_invalidated();
+            let n_err_reads = outs
+                .iter()
+                .filter(|o| matches!(o, JOut::Get(_, Err(())) | JOut::Empty(Err(())) | JOut::Load(Err(()))))
+                .count();
+            let n_err_answers = jp.answers.iter().filter(|a| a.got.is_err()).count();
+            // does one (server state, invalidation flag) explain every read that came back?
+            let explains = |srv: &Srv, inv: bool| -> bool {
+                if invalidated_now != inv {
+                    return false;
+                }
+                outs.iter().all(|o| match (o, srv) {
+                    (JOut::Get(_, Err(())), _) | (JOut::Empty(Err(())), _) | (JOut::Load(_), _) => true,
+                    (JOut::Get(k, Ok(v)), Srv::Loaded { map, .. }) => map.get(*k) == v.as_ref(),
+                    (JOut::Get(_, Ok(v)), Srv::Deleted) => v.is_none(),
+                    (JOut::Empty(Ok(e)), Srv::Loaded { map, .. }) => *e == map.is_empty(),
+                    (JOut::Empty(Ok(e)), Srv::Deleted) => *e,
+                    _ => true,
+                })
+            };
+            if n_err_reads > n_err_answers {
+                vio.push(viol("C11", "concurrent-reads-one-view", format!("join: a read failed although no load failed {shape}"), format!("req{ri} op{oi}: {n_err_reads} concurrent read(s) returned an error, the store failed {n_err_answers} load(s): {outs:?}")));
+            }
+            match &rm.srv {
+                Srv::NotLoaded => {
+                    let Some(id) = rm.presented.clone() else { return };
+                    // every load answer is what the previous request ended with (the property itself)
+                    for a in jp.answers.iter().filter(|a| !a.stale) {
+                        let Ok(got) = &a.got else { continue };
+                        let want: Option<Option<Map>> = match model.durable.get(&id) {
+                            None => Some(None),
+                            Some(rec) if a.t_hi < rec.deadline => Some(Some(rec.map.clone())),
+                            Some(rec) if a.t_lo >= rec.deadline => Some(None),
+                            Some(_) => None,
+                        };
+                        if let Some(want) = want {
+                            if &want != got {
+                                mismatch(vio, shape, ri, oi, "server.load(join)", "", format!("{got:?}"), format!("{want:?}"), rm);
+                            }
+                        }
+                    }
+                    let mut accepted: Vec<(Srv, bool)> = Vec::new();
+                    for a in &jp.answers {
+                        let Ok(got) = &a.got else { continue };
+                        let cand = match got {
+                            Some(map) => (Srv::Loaded { exists: Tri::Yes, map: map.clone(), changed: false }, rm.inv),
+                            None if cfg.reject_missing => (Srv::Deleted, true),
+                            None => (Srv::Loaded { exists: Tri::No, map: Map::new(), changed: false }, rm.inv),
+                        };
+                        if explains(&cand.0, cand.1) && !accepted.contains(&cand) {
+                            accepted.push(cand);
+                        }
+                    }
+                    let any_ok = jp.answers.iter().any(|a| a.got.is_ok());
+                    if any_ok && accepted.is_empty() {
+                        vio.push(viol(
+                            "C11",
+                            "concurrent-reads-one-view",
+                            format!("join: reads and invalidation flag are not explained by any single load answer {shape}"),
+                            format!(
+                                "req{ri} op{oi}: concurrent reads {:?} returned {outs:?} with is_invalidated()={invalidated_now}; the store answered the loads with {:?} (policy {}): no single answer, kept as THE server state, explains what the session shows",
+                                j.reads,
+                                jp.answers.iter().map(|a| &a.got).collect::<Vec<_>>(),
+                                if cfg.reject_missing { "reject" } else { "allow" }
+                            ),
+                        ));
+                        rm.srv = Srv::Unknown;
+                    } else if accepted.len() == 1 {
+                        let (srv, inv) = accepted.remove(0);
+                        if inv && !rm.inv {
+                            counters.push("rejected_missing_state");
+                        }
+                        rm.srv = srv;
+                        rm.inv = inv;
+                    } else if any_ok {
+                        rm.srv = Srv::Unknown;
+                        adopt_invalidation(s, rm);
+                    } else {
+                        rm.srv = Srv::Unknown;
+                    }
+                }
+                Srv::Unknown => {
+                    adopt_invalidation(s, rm);
+                }
+                srv => {
+                    // the state was loaded before the join: plain reads of it
+                    if !explains(srv, rm.inv) {
+                        mismatch(vio, shape, ri, oi, "server reads (join)", "", format!("{outs:?} invalidated={invalidated_now}"), format!("reads of {srv:?} invalidated={}", rm.inv), rm);
+                    }
+                }
+            }
         }
         Op::Wait(ms) => {
             seams::advance_clock_ns(*ms as i64 * 1_000_000);
@@ -1625,15 +1907,15 @@ impl Sim for SesSim {
             }
         } else {
             SimMeta {
-                rule: "Each run draws one SessionConfig from the cross product (server_state_creation, missing_server_state, extend_ttl, threshold in {None,0,0.5,0.8,1}, cookie kind, TTL) and 2-8 requests. Each request presents the latest cookie, an OLDER one (replay), none or garbage, advances the clock by a seeded step (arms: strict = total time < TTL; expiry = steps aimed at the deadlines incl. backward jumps; fault = the k-th store call fails or never returns, or the request is abandoned) and performs 0-10 operations from {server get/insert/remove/clear/is_empty/force_load, client get/insert/remove/clear/is_empty, delete, cycle_id, invalidate, explicit sync, observe-all} with unique values, then finalize_session. Every return value is compared with the reference model; after each request the cookie is decoded and (when fully determined) the store is cross-checked. Non-trivial: >= 2 requests. Distinct: distinct operation-shape hash.".into(),
+                rule: "Each run draws one SessionConfig from the cross product (server_state_creation, missing_server_state, extend_ttl, threshold in {None,0,0.5,0.8,1}, cookie kind, TTL) and 2-8 requests. Each request presents the latest cookie, an OLDER one (replay), none or garbage, advances the clock by a seeded step (arms: strict = total time < TTL; expiry = steps aimed at the deadlines incl. backward jumps; fault = the k-th store call fails or never returns, or the request is abandoned; one run in four also has a request with 2-3 server-side reads in flight AT ONCE on its one session — seeded store latencies, seeded poll order, clock steps between polls, and in the fault arm a stale `None` answer to one of the loads) and performs 0-10 operations from {server get/insert/remove/clear/is_empty/force_load, client get/insert/remove/clear/is_empty, delete, cycle_id, invalidate, explicit sync, observe-all} with unique values, then finalize_session. Every return value is compared with the reference model; after each request the cookie is decoded and (when fully determined) the store is cross-checked. Non-trivial: >= 2 requests. Distinct: distinct operation-shape hash.".into(),
                 real: common_real,
                 stub,
                 assumptions: vec![
                     "the model is written from the documentation; existence of an EMPTY record, TTL extension, outcomes inside a deadline window and the durable effects of an explicit sync() or of a failed request are adopted from observation (three-valued), so creation-policy and TTL-policy bugs are out of scope".into(),
                     "a finalize_session that fails without an injected fault emits no cookie, so C11 is vacuous for it: counted as observation_finalize_failed_without_fault, not reported".into(),
                 ],
-                fault_counters: vec!["fault_store_error".into(), "fault_request_crashed".into(), "fault_request_abandoned".into(), "fault_clock_jump_back".into()],
-                expected_probes: vec!["server_remove_of_present_key".into(), "stale_cookie_replayed".into(), "state_after_cycle_checked".into(), "state_after_invalidate_checked".into(), "rejected_missing_state".into(), "allowed_missing_state".into(), "loaded_after_expiry".into(), "durable_state_cross_checked".into()],
+                fault_counters: vec!["fault_store_error".into(), "fault_request_crashed".into(), "fault_request_abandoned".into(), "fault_clock_jump_back".into(), "fault_stale_none_answer".into()],
+                expected_probes: vec!["join_two_loads_in_flight".into(), "join_loads_disagreed".into(), "server_remove_of_present_key".into(), "stale_cookie_replayed".into(), "state_after_cycle_checked".into(), "state_after_invalidate_checked".into(), "rejected_missing_state".into(), "allowed_missing_state".into(), "loaded_after_expiry".into(), "durable_state_cross_checked".into()],
             }
         }
     }
@@ -1758,6 +2040,35 @@ impl Sim for SesSim {
             Ok("memory") => false,
             _ => rng.chance(1, 16),
         };
+        // Later draws (the part of the script above is the same function of the seed as before):
+        // one run in four has a request that issues 2-3 server-side reads CONCURRENTLY on its one
+        // session (`Op::Join`), mostly as its first operations, i.e. while the state is not loaded.
+        let mut reqs = reqs;
+        if reqs.len() >= 2 && rng.chance(1, 4) {
+            let ri = rng.usize(1, reqs.len() - 1);
+            let nreads = rng.usize(2, 3);
+            let reads: Vec<JRead> = (0..nreads)
+                .map(|_| match rng.below(5) {
+                    0 => JRead::ForceLoad,
+                    1 => JRead::IsEmpty,
+                    _ => JRead::SGet(rng.below(3) as u8),
+                })
+                .collect();
+            let delays: Vec<u8> = (0..nreads).map(|_| rng.below(4) as u8).collect();
+            let order = rng.bytes(8);
+            let t = ttl_ms.min(u32::MAX as u64 / 2) as u32;
+            let step_ms: Vec<u32> = match arm {
+                "expiry" => (0..rng.usize(1, 4)).map(|_| *rng.pick(&[0, 0, 1, t / 2, t.saturating_sub(1), t, t + 1])).collect(),
+                _ => (0..rng.usize(1, 3)).map(|_| *rng.pick(&[0, 0, 1, 7])).collect(),
+            };
+            let stale_none = if arm == "fault" && rng.chance(1, 2) { Some(rng.below(nreads as u64) as u8) } else { None };
+            let at = if rng.chance(2, 3) { 0 } else { rng.usize(0, reqs[ri].ops.len()) };
+            reqs[ri].ops.insert(at, Op::Join(JoinOp { reads, delays, order, step_ms, stale_none }));
+            if rng.chance(1, 2) {
+                // make sure a cookie is presented, so that there is something to load
+                reqs[ri].present = Present::Latest;
+            }
+        }
         Script { arm: arm.to_string(), cfg, reqs, crypto_switch }
     }
 
@@ -1802,6 +2113,50 @@ impl Sim for SesSim {
                 c.push(t);
             }
             for j in 0..r.ops.len() {
+                if let Op::Join(jo) = &r.ops[j] {
+                    // the same reads one after the other; one read fewer; no delays / steps / stale answer
+                    let mut t = s.clone();
+                    let seq: Vec<Op> = jo.reads.iter().map(|x| match x { JRead::SGet(k) => Op::SGet(*k), JRead::IsEmpty => Op::SIsEmpty, JRead::ForceLoad => Op::ForceLoad }).collect();
+                    t.reqs[i].ops.splice(j..=j, seq);
+                    c.push(t);
+                    if jo.reads.len() > 1 {
+                        for k in 0..jo.reads.len() {
+                            let mut t = s.clone();
+                            if let Op::Join(x) = &mut t.reqs[i].ops[j] {
+                                x.reads.remove(k);
+                            }
+                            c.push(t);
+                        }
+                    }
+                    if jo.stale_none.is_some() {
+                        let mut t = s.clone();
+                        if let Op::Join(x) = &mut t.reqs[i].ops[j] {
+                            x.stale_none = None;
+                        }
+                        c.push(t);
+                    }
+                    if jo.step_ms.iter().any(|m| *m != 0) {
+                        let mut t = s.clone();
+                        if let Op::Join(x) = &mut t.reqs[i].ops[j] {
+                            x.step_ms = vec![0];
+                        }
+                        c.push(t);
+                    }
+                    if jo.delays.iter().any(|m| *m != 0) {
+                        let mut t = s.clone();
+                        if let Op::Join(x) = &mut t.reqs[i].ops[j] {
+                            x.delays = vec![0; x.delays.len()];
+                        }
+                        c.push(t);
+                    }
+                    if !jo.order.is_empty() {
+                        let mut t = s.clone();
+                        if let Op::Join(x) = &mut t.reqs[i].ops[j] {
+                            x.order.clear();
+                        }
+                        c.push(t);
+                    }
+                }
                 if r.ops[j] == Op::Observe {
                     for k in 0..3u8 {
                         let mut t = s.clone();
